@@ -127,6 +127,20 @@ type scenario struct {
 	// Others: concurrent non-transaction activities (metrics observation, ...)
 	Others map[string]func(s *streams.Stream)
 	MaxT   int
+	// WithCtxProc: the engine is loaded with the harness processor VerifCtx available
+	WithCtxProc bool
+	// Extra is a further oracle on the transactions' verdicts
+	Extra func(res []string) (string, string)
+	Focus []string
+}
+
+func (sc scenario) load() (*streams.Stream, error) {
+	dir := ""
+	if sc.WithCtxProc {
+		dir = installCtxProc()
+	}
+	s, _, err := eng.NewStreamP(sc.Files, dir)
+	return s, err
 }
 
 func req(id string) func(s *streams.Stream) string {
@@ -154,13 +168,17 @@ func scenarios() []scenario {
 }
 
 func build(sc scenario) *mc.SchedOpts {
+	focus := []string{"lunar/engine/streams", "lunar/toolkit-core/vacuum", "lunar/engine/config"}
+	if sc.Focus != nil {
+		focus = sc.Focus
+	}
 	return &mc.SchedOpts{Name: sc.Name, MaxT: sc.MaxT, Quantum: 100 * time.Millisecond,
-		Focus: []string{"lunar/engine/streams", "lunar/toolkit-core/vacuum", "lunar/engine/config"},
+		Focus: focus,
 		Body: func(x *mc.Exec) {
 			ctx, cancel := context.WithCancel(context.Background())
 			contextmanager.Get().WithContext(ctx)
 			x.Vals["cancel"] = cancel
-			s, _, err := eng.NewStream(sc.Files)
+			s, err := sc.load()
 			if err != nil {
 				panic("engine did not load: " + err.Error())
 			}
@@ -188,6 +206,11 @@ func build(sc scenario) *mc.SchedOpts {
 				return "", ""
 			}
 			got := append([]string{}, x.Vals["res"].([]string)...)
+			if sc.Extra != nil {
+				if k, w := sc.Extra(got); k != "" {
+					return k, w
+				}
+			}
 			sort.Strings(got)
 			key := strings.Join(got, " | ")
 			if !serialOutcomes(sc)[key] {
@@ -218,7 +241,7 @@ func computeSerial(t *testing.T, sc scenario) {
 		mc.Bubble(t, func(t *testing.T) {
 			ctx, cancel := context.WithCancel(context.Background())
 			contextmanager.Get().WithContext(ctx)
-			s, _, err := eng.NewStream(sc.Files)
+			s, err := sc.load()
 			if err != nil {
 				panic(err)
 			}
@@ -450,10 +473,13 @@ func TestCheck(t *testing.T) {
 	for _, sc := range scenarios() {
 		names = append(names, sc.Name)
 	}
-	names = append(names, "policy-lookup-vs-reload-vs-vacuum", "vacuum-pass-vs-new-key")
+	for _, sc := range moreScenarios() {
+		names = append(names, sc.Name)
+	}
+	names = append(names, "policy-lookup-vs-reload-vs-vacuum", "vacuum-pass-vs-new-key", "message-handler-vs-apply-flows")
 	r.Rule = fmt.Sprintf("all schedules (<=%d preemptions) of scenarios %s on a real engine / accessor, built with -race with the scheduler's hand-offs hidden from the detector; a violation is a happens-before race between two repository functions in any explored schedule, or a set of verdicts that no one-at-a-time order produces; distinct = observation logs", pre, strings.Join(names, ","))
 	r.Assume("Go race detector as per-schedule happens-before oracle; reports whose conflicting access is in harness code are ignored",
-		"scheduling decisions at sync operations of lunar/engine/streams, lunar/engine/config, toolkit-core/vacuum")
+		"scheduling decisions at sync operations of lunar/engine/streams, lunar/engine/config, toolkit-core/vacuum (queue scenario: the Queue processor, its shared queue and the quota; reload scenario: lunar/engine/routing, the Stream, its metrics data and lunar/engine/metrics)")
 	if r.Parallel(t, 16) {
 		for _, rep := range parseRaceLogs(raceDir) {
 			r.Violation(rep.key, "data race between repository functions: "+strings.ReplaceAll(rep.key[5:], "|", "  <->  "), map[string]any{"report": rep.text})
@@ -462,7 +488,7 @@ func TestCheck(t *testing.T) {
 		r.Finish(t)
 		return
 	}
-	for _, sc := range scenarios() {
+	for _, sc := range append(scenarios(), moreScenarios()...) {
 		computeSerial(t, sc)
 		o := build(sc)
 		o.MaxPreempt = pre
@@ -474,6 +500,10 @@ func TestCheck(t *testing.T) {
 	o.MaxExecutions = int64(mc.Pick(r, 6000, 100000))
 	mc.Explore(t, r, o)
 	o = vacuumScenario()
+	o.MaxPreempt = pre
+	o.MaxExecutions = int64(mc.Pick(r, 6000, 100000))
+	mc.Explore(t, r, o)
+	o = handlerVsReload()
 	o.MaxPreempt = pre
 	o.MaxExecutions = int64(mc.Pick(r, 6000, 100000))
 	mc.Explore(t, r, o)
